@@ -207,6 +207,10 @@ def cases(tier, seed):
             yield {"k": "retry", "gen": gen, "seed": rnd.randrange(1 << 30), "step": step,
                    "pause": pause, "calls": calls, "again_after_true": step < 0.5}
     for gen in (4, 5):
+        for n in (1, 2):
+            yield {"k": "retry", "gen": gen, "seed": 7100 + 10 * gen + n + seed, "step": 0.0,
+                   "pause": 0.0, "calls": 1, "shutdown_first": n}
+    for gen in (4, 5):
         for step, give_up, pause, calls in ((0.3, 0.5, 0.0, 8), (0.3, 1.0, 0.5, 6),
                                             (0.05, 0.1, 0.0, 8), (0.9, 2.0, 0.1, 6),
                                             (0.3, 0.01, 0.2, 12)):
@@ -275,6 +279,13 @@ def run_retry(case):
     async def main(loop, net, log):
         knobs = C.Knobs(latency=case["step"])
         w = AW.ModelWorld(gen, loop, net, log, inst, knobs)
+        if case.get("shutdown_first"):
+            # a tidy application: shutdown() in a finally block, also when init() was never
+            # reached - and the object is used again later
+            for _ in range(case["shutdown_first"]):
+                await w.at.shutdown()
+            await quiesce(loop)
+            obs["init_after_shutdown_of_a_never_initialised_object"] = 1
         rets = []
         for attempt in range(case["calls"]):
             if case.get("give_up"):
